@@ -40,8 +40,9 @@ type muxStats struct {
 
 // fakeTracker is the fake server's view of fid bindings and outstanding tags.
 type fakeTracker struct {
-	bound map[uint64]bool
-	out   map[uint16]bool
+	bound  map[uint64]bool
+	out    map[uint16]bool
+	strict bool // also judge requests that name a fid the server does not have bound
 }
 
 func (t *fakeTracker) onRequest(m *refcodec.Msg) *fail {
@@ -52,6 +53,17 @@ func (t *fakeTracker) onRequest(m *refcodec.Msg) *fail {
 		return failf("duplicate-outstanding-tag", "request %s re-uses tag %d while an earlier request with it is unanswered", m, m.Tag)
 	}
 	t.out[m.Tag] = true
+	if t.strict {
+		// every fid a request names is one the server has bound (the client does not
+		// go on using, or clunk a second time, a fid it gave up)
+		for _, k := range []string{"fid", "dfid", "olddirfid", "newdirfid"} {
+			if v, ok := m.F[k]; ok && m.Type != refcodec.Tattach && m.Type != refcodec.Tauth {
+				if f, ok := v.(uint64); ok && f != refcodec.NOFID && !t.bound[f] {
+					return failf("request-on-unbound-fid", "request %s names fid %d, which the server does not have bound (it was clunked or removed, or never bound)", m, f)
+				}
+			}
+		}
+	}
 	var nf uint64
 	binding := false
 	switch m.Type {
@@ -857,7 +869,7 @@ type fidCase struct {
 func runFidCase(c fidCase) *fail {
 	fk := peers.NewFake()
 	defer fk.Close()
-	tr := &fakeTracker{bound: map[uint64]bool{}, out: map[uint16]bool{}}
+	tr := &fakeTracker{bound: map[uint64]bool{}, out: map[uint16]bool{}, strict: true}
 	stop := make(chan struct{})
 	defer close(stop)
 	var bad *fail
@@ -927,7 +939,9 @@ func runFidCase(c fidCase) *fail {
 	for _, op := range c.Ops {
 		var kind string
 		var i int
-		if n, _ := fmt.Sscanf(op, "close:%d", &i); n == 1 {
+		if n, _ := fmt.Sscanf(op, "forget:%d", &i); n == 1 {
+			kind = "forget"
+		} else if n, _ := fmt.Sscanf(op, "close:%d", &i); n == 1 {
 			kind = "close"
 		} else if n, _ := fmt.Sscanf(op, "closefail:%d", &i); n == 1 {
 			kind = "closefail"
@@ -986,6 +1000,18 @@ func runFidCase(c fidCase) *fail {
 				root.ListXattrs()
 			} else {
 				root.GetXattr("user.a")
+			}
+		case "forget", "gc":
+			// the caller drops a File without closing it (or just collects garbage):
+			// the finalizer clunks it - once, and never a File that was closed
+			if kind == "forget" && len(files) > 0 {
+				files[i%len(files)] = files[len(files)-1]
+				files = files[:len(files)-1]
+			}
+			setDecisions(true, true, true)
+			for k := 0; k < 3; k++ {
+				runtime.GC()
+				time.Sleep(time.Millisecond)
 			}
 		case "close", "closefail", "remove":
 			if len(files) == 0 {
@@ -1207,8 +1233,8 @@ func TestC10(t *testing.T) {
 		for i := rapid.IntRange(1, 30).Draw(rt, "n"); i > 0; i-- {
 			k := rapid.SampledFrom([]string{"walk", "walk", "walk", "walkfail", "close", "closefail", "remove", "xattr",
 				"xattr-read", "xattr-readfail", "xattr-walkfail", "xattr-clunkfail", "xattr-list", "xattr-listfail",
-				"wga", "wga-getattrfail", "wga-getattrfail", "wga-bothfail", "wga-walkfail"}).Draw(rt, "op")
-			if k == "close" || k == "closefail" || k == "remove" {
+				"wga", "wga-getattrfail", "wga-getattrfail", "wga-bothfail", "wga-walkfail", "forget", "gc"}).Draw(rt, "op")
+			if k == "close" || k == "closefail" || k == "remove" || k == "forget" {
 				k = fmt.Sprintf("%s:%d", k, rapid.IntRange(0, 9).Draw(rt, "i"))
 			}
 			c.Ops = append(c.Ops, k)
